@@ -17,7 +17,7 @@ import (
 	. "vh/vhlib"
 )
 
-var gens = map[string]GenFn{"PoolSrc": genPoolSrc}
+var gens = map[string]GenFn{"PoolSrc": genPoolSrc, "XConnSrc": genXConnSrc}
 
 func exprStr(fset *token.FileSet, e ast.Node) string {
 	var b bytes.Buffer
@@ -292,5 +292,53 @@ func genPoolSrc(repo string) (string, error) {
 	fmt.Fprintf(&b, "Definition pool_src_switches : switches := mkSw %v %v %v %v.\n", checkFirst, httpResetAny, ppClose, ppResetAny)
 	fmt.Fprintf(&b, "Definition poolmx_src_switches : mx_switches := mkMxSw %v %v.\n", mxFlag, mxOwn)
 	fmt.Fprintf(&b, "Definition PoolSrc_translator_ok := %v.\n", ok)
+	return b.String(), nil
+}
+
+// genXConnSrc: the shape of GenerateRequestID of the xprotocol codecs (Model/XAlloc.v alloc_prog): a single
+// atomic.AddUint64 with a cast (one atomic step), or add-then-reset in two atomic steps, or unknown.
+func genXConnSrc(repo string) (string, error) {
+	var b strings.Builder
+	b.WriteString("From Coq Require Import NArith.\nFrom MV Require Import Model.XConn Model.XAlloc.\nOpen Scope N_scope.\n")
+	ok := true
+	for _, p := range []struct{ name, dir, recv string }{
+		{"bolt", "bolt", "boltProtocol"}, {"boltv2", "boltv2", "boltv2Protocol"}, {"tars", "tars", "tarsProtocol"},
+		{"dubbo", "dubbo", "dubboProtocol"}, {"dubbothrift", "dubbothrift", "thriftProtocol"}} {
+		fset, f, err := ParseGoFile(repo, "pkg/protocol/xprotocol/"+p.dir+"/protocol.go")
+		if err != nil {
+			return "", err
+		}
+		prog := ""
+		fd := FindFunc(f, p.recv, "GenerateRequestID")
+		if fd != nil && fd.Type.Params != nil && len(fd.Type.Params.List) == 1 && len(fd.Type.Params.List[0].Names) == 1 {
+			arg := fd.Type.Params.List[0].Names[0].Name
+			var st []string
+			for _, x := range fd.Body.List {
+				st = append(st, exprStr(fset, x))
+			}
+			add := "atomic.AddUint64(" + arg + ",1)"
+			switch {
+			case len(st) == 1 && st[0] == "returnuint64(uint32("+add+"))":
+				prog = "AtomicAdd GenU32"
+			case len(st) == 1 && st[0] == "returnuint64(int32("+add+"))":
+				prog = "AtomicAdd GenS32"
+			case len(st) == 1 && st[0] == "return"+add:
+				prog = "AtomicAdd GenU64"
+			case len(st) == 3 && st[0] == "id:="+add && st[2] == "returnid":
+				for lim, v := range map[string]string{"math.MaxInt32": "2147483647", "math.MaxUint32": "4294967295"} {
+					if st[1] == "ifid>"+lim+"{atomic.StoreUint64("+arg+",1);id=1}" || st[1] == "ifid>"+lim+"{atomic.StoreUint64("+arg+",1)id=1}" {
+						prog = "AddThenReset " + v
+					}
+				}
+			}
+		}
+		if prog == "" {
+			ok = false
+			fmt.Fprintf(&b, "(* %s: GenerateRequestID has a shape the translator does not know *)\n", p.name)
+			prog = "AddThenReset 0"
+		}
+		fmt.Fprintf(&b, "Definition xsrc_%s : alloc_prog := %s.\n", p.name, prog)
+	}
+	fmt.Fprintf(&b, "Definition XConnSrc_translator_ok := %v.\n", ok)
 	return b.String(), nil
 }
